@@ -101,6 +101,33 @@ def run(chk, binary):
             else:
                 chk.violation("spec:files changed although the run failed", {"script": sc["cmds"][0], "dir": sc["dirs"], "changed": changed, "half_backups": extra,
                               "after": {k: v.decode(errors="replace") for k, v in ob["final"].items()}})
+    # ---- a file that vanishes while the run is under way (the commands remove it): whatever the run then does with that
+    # file, if it fails, the others are as they were ----
+    vscs = []
+    for mode in MODES:
+        if any(x.startswith("pooled") for x in mode):
+            continue
+        for backup in (False, True):
+            for victim in (1, 2):
+                names = ["a1.txt", "b2.txt", "c3.txt"]
+                files = [(nm, rng.choice(GOOD).encode()) for nm in names]
+                vscs.append(({"files": files, "opts": ["-i"] + mode + (["--backup"] if backup else []), "cmds": ["-m", ":!rm -f %s<CR>" % names[victim], "-m", "x"], "stdin": None},
+                             mode, backup, names[victim]))
+    for (sc, mode, backup, victim), ob in zip(vscs, D.scenarios_map(binary, [x[0] for x in vscs])):
+        chk.count(("c06-vanish", tuple(mode), backup, victim))
+        if ob["rc"] == 0:
+            continue
+        init = dict(sc["files"])
+        changed = [nm for nm, data in sc["files"] if nm != victim and ob["final"].get(nm) != data]
+        halfbak = [nm for nm in ob["final"] if nm not in init and ob["final"][nm] not in init.values()]
+        if changed or halfbak:
+            names = [nm for nm, _ in sc["files"]]
+            if "--serial" in mode and all(names.index(nm) < names.index(victim) for nm in changed) and not halfbak:
+                chk.known("serial-driver", f"--serial rewrites the files before the first faulty one: {' '.join(ob['argv'])}")
+            else:
+                chk.violation("spec:files changed although the run failed", {"argv": ob["argv"], "kind": "a file removed while the run was under way", "vanished": victim, "changed": changed,
+                              "half_backups": halfbak, "files": [(a, b.decode(errors='replace')) for a, b in sc["files"]],
+                              "after": {k: v.decode(errors="replace") for k, v in ob["final"].items()}, "stderr": ob["err"].decode(errors="replace")[-300:]})
     obs = D.scenarios_map(binary, scs)
     model = D.eval_model("c06", [D.model_case(sc, ob) for sc, ob in zip(scs, obs)])
     dist = {}
@@ -137,7 +164,7 @@ def run(chk, binary):
     chk.cov["rule"] = ("fault enumeration: 2..4 files x every non-empty subset/position of faulty files x fault kind {invalid UTF-8, data-dependent abort (bad regex reached only in marked files), missing template field} "
                        "x {default, --serial, --linewise, --linewise --serial} x --backup (all combinations on thorough, a seeded sample on quick); each run executed in a scratch directory; "
                        "final bytes/listing/status compared with the Coq driver model; oracle: no named file changed, no partial backup. distinct = distinct (argv, files)")
-    chk.assumptions += ["write-time faults (disk full, permissions) and a file vanishing between validation and read are not injected; OS-level atomicity of fs::write is not modelled",
+    chk.assumptions += ["write-time faults (disk full, permissions) are not injected; a file vanishing mid-run is injected by letting the commands remove it; OS-level atomicity of fs::write is not modelled",
                         "pooled mode (max_jobs) shares the parallel driver code; it is reachable only through a vic opts block and is not run here"]
     known_lines = [f"KNOWN-FINDING: property=C06 class={k} {v}" for k, v in sorted(chk.known_hits.items())]
     return chk.finish(known_lines)
